@@ -1545,7 +1545,7 @@ def _is_items(t):
 
 
 def _elem_meta(it):
-    if T.is_op(it, 'RANGE'):
+    if T.is_op(it, 'RANGE') or T.is_op(it, 'RANGE_STAR'):
         return {'type': 'int'}
     if T.tag(it) == 'sym':
         em = T.sym_meta(it, 'elem')
